@@ -256,6 +256,111 @@ def flag_cases(ctx):
     return defs, meta, fails
 
 
+def truth_flags(a):
+    """the four flags recomputed on a plain ndarray, independently of the Basis object (None = too close to a tolerance)"""
+    a = np.asarray(a, dtype=complex)
+    n, d = a.shape[0], a.shape[-1]
+    def decide(dev, atol):
+        return True if dev < 0.75 * atol else False if dev > 1.5 * atol else None
+    out = {}
+    out['isherm'] = decide(np.abs(a.conj().transpose(0, 2, 1) - a).max(), EPS * d ** 3)
+    out['isorthonorm'] = True if n == 1 else decide(np.abs(gram(a) - np.eye(n)).max(), EPS * (d * d) ** 3)
+    tr = np.einsum('kii->k', a)
+    at = EPS * d * d
+    parts = np.concatenate([tr.real, tr.imag])
+    if ((np.abs(parts) > 0.75 * at) & (np.abs(parts) < 1.5 * at)).any():
+        out['istraceless'] = None
+    else:
+        nz = [k for k in range(n) if abs(tr[k].real) > at or abs(tr[k].imag) > at]
+        if len(nz) == 0:
+            out['istraceless'] = True
+        elif len(nz) == 1:
+            e = a[nz[0]]
+            off = e[~np.eye(d, dtype=bool)]
+            out['istraceless'] = bool((off == 0).all() and (np.diag(e) == e[0, 0]).all())
+        else:
+            out['istraceless'] = False
+    sv = np.linalg.svd(a.reshape(n, -1), compute_uv=False)
+    r_hi = int((sv > 1e-9 * max(sv.max(), 1e-300)).sum())
+    r_lo = int((sv > 1e-13 * max(sv.max(), 1e-300)).sum())
+    out['iscomplete'] = (r_hi == d * d) if r_hi == r_lo else None
+    return out
+
+
+FLAGS = ('isherm', 'isorthonorm', 'istraceless', 'iscomplete')
+
+
+def derived_objects(b):
+    """objects derived by arithmetic from a Basis whose flags HAVE BEEN EVALUATED (they are cached on b)"""
+    d = b.d
+    mask = np.ones((d, d))
+    mask[0, :] = 0.0
+    c = b.copy()
+    c[len(c) - 1] = c[len(c) - 1] * (0.5 + 0.5j) + 0.25
+    out = [('1j*b', 1j * b), ('2*b', 2 * b), ('b+eye', b + np.eye(d)), ('b*mask', b * mask), ('b-b[1]', b - b[1]),
+           ('copy-modified', c), ('b.T', b.T), ('-b', -b), ('b.conj()*1j', b.conj() * 1j), ('b[::-1]', b[::-1]),
+           ('view', np.asarray(b).copy().view(ff.Basis))]
+    return out
+
+
+def derived_cases(ctx):
+    """flags of derived objects must be their own, not the (cached) flags of the source"""
+    fails, classes = [], {}
+    nev = 0
+    sources = [('pauli1', lambda: ff.Basis.pauli(1)), ('pauli2', lambda: ff.Basis.pauli(2)), ('ggm2', lambda: ff.Basis.ggm(2)),
+               ('ggm3', lambda: ff.Basis.ggm(3)),
+               ('partial', lambda: ff.Basis.from_partial([util.paulis[1], util.paulis[3]], traceless=True)),
+               ('nonherm', lambda: ff.Basis(np.array([[[0, 1], [0, 0]], [[0, 0], [1, 0]]], dtype=complex)))]
+    if ctx.thorough:
+        sources += [('ggm4', lambda: ff.Basis.ggm(4)), ('pauli3', lambda: ff.Basis.pauli(3))]
+    for sname, mk in sources:
+        b = mk()
+        src = {k: bool(getattr(b, k)) for k in FLAGS}          # evaluate (and cache) all four flags on the source FIRST
+        tsrc = truth_flags(arr(b))
+        for k in FLAGS:
+            if tsrc[k] is not None and src[k] != tsrc[k]:
+                fails.append(dict(kind='prop', observable='flag ' + k, signature='c14-flag-' + k,
+                                  detail='source %s: %s is %s, independent recomputation gives %s' % (sname, k, src[k], tsrc[k]),
+                                  input=dict(case='derived', source=sname, op='source')))
+        for op, obj in derived_objects(b):
+            nev += 1
+            a = arr(obj).copy()
+            want = truth_flags(a)
+            got = {k: bool(getattr(obj, k)) for k in FLAGS}
+            classes['derived/%s/%s' % (sname, op)] = 1
+            for k in FLAGS:
+                if want[k] is not None and got[k] != want[k]:
+                    fails.append(dict(kind='prop', observable='flag %s of a derived object' % k, signature='c14-derived-flag',
+                                      detail='%s: %s of (%s) is reported %s but is %s (the source reports %s)'
+                                             % (sname, k, op, got[k], want[k], src[k]),
+                                      input=dict(case='derived', source=sname, op=op)))
+            # a fresh Basis of the same entries must agree with the derived object
+            fresh = ff.Basis(a)
+            for k in FLAGS:
+                if bool(getattr(fresh, k)) != got[k]:
+                    fails.append(dict(kind='prop', observable='flag %s of a derived object' % k, signature='c14-derived-flag',
+                                      detail='%s: %s of (%s) is %s on the derived object and %s on a fresh Basis of the same entries'
+                                             % (sname, k, op, got[k], bool(getattr(fresh, k))),
+                                      input=dict(case='derived', source=sname, op=op)))
+        # the package's own in-place methods after the flags have been evaluated
+        for meth in ('normalize', 'tidyup'):
+            b2 = ff.Basis(2.0 * arr(mk()))
+            before = {k: bool(getattr(b2, k)) for k in FLAGS}
+            getattr(b2, meth)()
+            nev += 1
+            want = truth_flags(arr(b2))
+            got = {k: bool(getattr(b2, k)) for k in FLAGS}
+            classes['inplace/%s/%s' % (sname, meth)] = 1
+            for k in FLAGS:
+                if want[k] is not None and got[k] != want[k]:
+                    fails.append(dict(kind='prop', observable='flag %s after in-place %s()' % (k, meth),
+                                      signature='c14-stale-flags-inplace',
+                                      detail='%s scaled by 2: %s was %s, after Basis.%s() it is still reported %s but is %s'
+                                             % (sname, k, before[k], meth, got[k], want[k]),
+                                      input=dict(case='inplace', source=sname, op=meth)))
+    return fails, classes, nev
+
+
 # ------------------------------------------------------------------ (3) expansion
 def expand_cases(ctx):
     r = ctx.rng(142)
@@ -523,8 +628,19 @@ def run(ctx):
     failures += fails
     classes.update(cl)
     alldefs.append((defs, meta, 3))
+    fails, cl, nder = derived_cases(ctx)
+    failures += fails
+    classes.update(cl)
+    # non-positive sizes are rejected (raise catalogue tied in Model/Tie/C14.v)
+    for fn, arg in ((ff.Basis.pauli, 0), (ff.Basis.ggm, 0), (ff.Basis.ggm, -1)):
+        try:
+            fn(arg)
+            failures.append(dict(kind='prop', observable='constructor/rejection', signature='c14-constructor-rejection',
+                                 detail='%s(%d) does not raise' % (fn.__name__, arg), input=dict(case='size', fn=fn.__name__, arg=arg)))
+        except ValueError:
+            pass
     agree = undec = 0
-    nev = 0
+    nev = nder
     for defs, meta, per in alldefs:
         res = ctx.eval_tallies(HEADER, defs, per_file=per)
         for (nm, _), m, x in zip(defs, meta, res):
@@ -589,6 +705,20 @@ def replay(ctx, rep):
         if bad:
             return False, 'replay reproduces: %s' % bad
         return True, 'replay: completed basis is a complete Hermitian ONB with the supplied elements and labels'
+    if case in ('derived', 'inplace'):
+        class _C:
+            thorough = True
+        fails, _, _ = derived_cases(_C())
+        mine = [f for f in fails if f['input'].get('source') == inp.get('source') and f['input'].get('op') == inp.get('op')]
+        if mine:
+            return False, 'replay reproduces: %s' % mine[0]['detail']
+        return True, 'replay: the flags of (%s) derived from %s are its own' % (inp.get('op'), inp.get('source'))
+    if case == 'size':
+        try:
+            getattr(ff.Basis, inp['fn'])(inp['arg'])
+            return False, 'replay reproduces: no exception'
+        except ValueError:
+            return True, 'replay: rejected'
     if case in ('flags', 'iscomplete'):
         b = _arr(inp['basis']).astype(complex)
         B = ff.Basis(b)
@@ -631,6 +761,8 @@ def search(ctx, broken):
         out += [f for f in fails if f['kind'] == 'prop']
     _, _, fails, _ = partial_cases(t)
     out += [f for f in fails if f['kind'] == 'prop' and f['signature'] != 'c14-labels-no-identity']
+    fails, _, _ = derived_cases(t)
+    out += [f for f in fails if f['signature'] != 'c14-stale-flags-inplace']
     for f in out:
         f['broken_obligations'] = broken
     return out[:5]
